@@ -174,6 +174,10 @@ func TestC36(t *testing.T) {
 				rec.Case(true, p.Source, eng, j.bc.Job.Goroutines, j.bc.GoMaxProcs)
 			}
 			rec.Class("program:" + p.Name)
+			if lab := "program-" + p.Name; rec.WantSample(lab) {
+				rec.Sample(lab, map[string]any{"template": p.Name, "engine": eng.String(), "goroutines": j.bc.Job.Goroutines, "gomaxprocs": j.bc.GoMaxProcs,
+					"sequential_outcome": o.br.Classes[i], "source": p.Source})
+			}
 			rec.Class("outcome:" + o.br.Classes[i])
 		}
 		if j.bc.Job.Warm {
